@@ -83,6 +83,9 @@ func TestC06_Reference(t *testing.T) {
 	rapid.Check(t, func(t *rapid.T) {
 		p, pname := genProfile(t)
 		p.MaxLen = 5
+		if rapid.IntRange(0, 7).Draw(t, "longLists") == 0 {
+			p.MaxLen = 13 // index 10 and beyond
+		}
 		root := uni.GenDatum(t, p)
 		o := Opts{}
 		if rapid.IntRange(0, 9).Draw(t, "unk") == 0 {
@@ -333,7 +336,7 @@ func TestC06_Unroll(t *testing.T) {
 func TestC06_FoldEnum(t *testing.T) {
 	r := rec(t, "C06", c06Rule)
 	r.Exhaustive = true
-	r.ExhaustiveOf = "element outcome sequences {T,F,E}^(0..5) x any/all x 4 binding modes x 4 list representations"
+	r.ExhaustiveOf = "element outcome sequences {T,F,E}^(0..5) and length-12 sequences varying positions 1,2,9,10,11, x any/all x 4 binding modes x 4 list representations"
 	evalCache = map[string]*bexpr.Evaluator{}
 	defer func() { evalCache = nil }()
 	maxLen := 5
@@ -362,6 +365,26 @@ func TestC06_FoldEnum(t *testing.T) {
 		}
 	}
 	genSeq("")
+	// long lists (position 10 and beyond sort differently as text than as numbers):
+	// length 12, positions 1, 2, 9, 10, 11 range over {T,F,E}, the rest is neutral
+	for _, neutral := range "TF" {
+		var long func(prefix string)
+		long = func(prefix string) {
+			if len(prefix) == 12 {
+				seqs = append(seqs, prefix)
+				return
+			}
+			switch len(prefix) {
+			case 1, 2, 9, 10, 11:
+				for _, c := range "TFE" {
+					long(prefix + string(c))
+				}
+			default:
+				long(prefix + string(neutral))
+			}
+		}
+		long("")
+	}
 	n := 0
 	for _, s := range seqs {
 		elems := make([]*uni.Node, len(s))
@@ -398,6 +421,10 @@ func TestC06_FoldEnum(t *testing.T) {
 					if body == nil {
 						// `i == <last index>`: true exactly at the last element
 						q.Body = &bx.Match{Sel: bx.Sel{Parts: []string{"i"}}, Op: bx.OpEq, Lit: strconv.Itoa(len(s) - 1)}
+					} else if mode == bx.BindBoth && len(s) >= 3 && ri == 0 {
+						// position and element together: `i == <k> and v == 1` for the middle position k
+						q.Body = &bx.And{L: &bx.Match{Sel: bx.Sel{Parts: []string{"i"}}, Op: bx.OpEq, Lit: strconv.Itoa(len(s) - 2)}, R: body}
+						body = nil
 					} else {
 						q.Body = body
 					}
